@@ -42,6 +42,9 @@ Definition fg_at (local : bool) (b : block) (inds : list N) (offy offz : Z) (x y
          advanced by bits per voxel *)
       let rel := Z.to_N ((blockz * 64 + blocky * 8) mod 2 ^ 32)%Z in
       let bitpos := (bp + rel * k + (x mod 8) * k) mod 2 ^ 32 in
+      (* a wrapped bit position lies far outside SBValues: index out of range (decided here
+         without walking the list to that index) *)
+      if 8 * N.of_nat (length (b_vals b)) <=? bitpos then Panic else
       match get_packed (b_vals b) bitpos k with
       | Ok v =>
         if n <=? v then Panic                  (* stale scratch entries are not modelled *)
